@@ -21,7 +21,7 @@ RULE = (
     "permutation of declaration order, re-writing every update function as DNF/CNF/Shannon expansion, negating a subset of "
     "variables (x' = !x everywhere), round trip through bnet/aeon/sbml text, names that need sanitizing incl. collisions; "
     "strategy); oracle = metamorphic: with phi the induced map on spaces, expand_bfs() of both presentations gives phi-equal node "
-    "sets, edge sets and per-edge motif multisets (and is_isomorphic where names agree), phi-equal minimal trap spaces for the "
+    "sets, edge sets and per-edge motif multisets (and is_subgraph/is_isomorphic say so when only the declaration order differs), phi-equal minimal trap spaces for the "
     "chosen strategy, and after build() the seeds of both hit the same brute-force attractors once each; sanitize_network_names "
     "gives distinct [A-Za-z0-9_]+ names, leaves its input unchanged and preserves every update function positionally; "
     "non-trivial = the transformation changes the variable order or negates a variable, on a diagram with >=3 nodes"
@@ -38,14 +38,15 @@ def _case(draw, max_n):
     # no update-less inputs: bnet/sbml round trips cannot express an isolated one
     tabs = [t if t is not None else [0, 1] for t in nj["tables"]]
     regs = [r if t is not None else [i] for i, (r, t) in enumerate(zip(nj["regs"], nj["tables"]))]
-    mode = draw(st.sampled_from(("rename", "rename", "format", "sanitize")))
+    mode = draw(st.sampled_from(("rename", "rename", "format", "sanitize", "reorder")))
     pool = WEIRD if mode == "sanitize" else POOL
     return {
         "net": {"names": nj["names"], "regs": regs, "tables": tabs},
         "mode": mode,
-        "new_names": list(draw(st.permutations(pool))[:n]),
+        # mode "reorder": same names, only the declaration order differs (is_isomorphic must then say True)
+        "new_names": list(draw(st.permutations(pool))[:n]) if mode != "reorder" else list(nj["names"]),
         "decl_perm": list(draw(st.permutations(list(range(n))))),
-        "negate_vars": sorted(draw(st.sets(st.integers(0, n - 1), max_size=2))) if mode != "sanitize" else [],
+        "negate_vars": sorted(draw(st.sets(st.integers(0, n - 1), max_size=2))) if mode not in ("sanitize", "reorder") else [],
         "style": draw(st.sampled_from(("dnf", "cnf", "shannon"))),
         "format": draw(st.sampled_from(("bnet", "aeon", "sbml"))),
         "strategy": draw(st.sampled_from(("block", "scc", "min", "attr", "dfs"))),
@@ -204,6 +205,13 @@ def run_case(case) -> Result:
             res.violate(f"diagram:edge-sets-differ:{case['mode']}")
         elif e1 != e2:
             res.violate(f"diagram:edge-motifs-differ:{case['mode']}")
+        if case["mode"] == "reorder":
+            # the library's own comparison has to agree when the names agree
+            for x, y, w in ((sd1, sd2, "base<=reordered"), (sd2, sd1, "reordered<=base")):
+                if call(x.is_subgraph, y) is not True:
+                    res.violate("is_subgraph-false-for-reordered-declaration", which=w)
+            if call(sd1.is_isomorphic, sd2) is not True:
+                res.violate("is_isomorphic-false-for-reordered-declaration")
         # second pair: a strategy + build on fresh diagrams
         sa = call(SuccessionDiagram, to_bn(base, via="bnet"))
         if case["mode"] == "format":
